@@ -65,6 +65,9 @@ type snapState struct {
 	ne  bool
 	B   bset
 	adv bool
+	// token-scan facts at the time of the snapshot (restored when the position is reset to it)
+	sig, sawNL, nlUnknown bool
+	nl                    int
 }
 
 type lexState struct {
@@ -77,14 +80,54 @@ type lexState struct {
 	byteVar map[types.Object]bool         // locals that alias the current byte
 	runeVar map[types.Object]bool         // locals that alias the current rune
 	valueOf map[types.Object]types.Object // value := input[start:pos]  ->  start
+	// facts about the token being scanned (reset when Next is entered)
+	sig        bool // a byte other than a blank may have been consumed
+	nl         int  // line breaks consumed minus increments of the line counter
+	nlUnknown  bool // a byte that may or may not be a line break was consumed
+	sawNL      bool // a line break was consumed
+	atStartSet bool // the line-start flag was set to true
+	posSnap    map[types.Object]bool // start := l.position(): snapshot variables that hold a Position
+	sigAt      map[types.Object]bool // per snapshot: value of sig when it was taken
+	lead       map[types.Object]bool // per snapshot: input was consumed between an earlier position snapshot and this one
+	notAfter   map[types.Object]map[types.Object]bool // per snapshot o: snapshots taken at a position <= o's (existing when o was taken)
+	epoch      []types.Object                         // snapshots taken since the last advance (all at the current position)
+}
+
+// markSince records pos > snapshot(o); the same then holds for every snapshot taken at a position <= o's.
+func (s *lexState) markSince(o types.Object) {
+	s.since[o] = true
+	for q := range s.notAfter[o] {
+		if _, live := s.snaps[q]; live {
+			s.since[q] = true
+		}
+	}
 }
 
 func newLexState() *lexState {
-	return &lexState{B: fullSet(), since: map[types.Object]bool{}, snaps: map[types.Object]snapState{}, byteVar: map[types.Object]bool{}, runeVar: map[types.Object]bool{}, valueOf: map[types.Object]types.Object{}}
+	return &lexState{B: fullSet(), since: map[types.Object]bool{}, snaps: map[types.Object]snapState{}, byteVar: map[types.Object]bool{}, runeVar: map[types.Object]bool{}, valueOf: map[types.Object]types.Object{},
+		posSnap: map[types.Object]bool{}, sigAt: map[types.Object]bool{}, lead: map[types.Object]bool{}, notAfter: map[types.Object]map[types.Object]bool{}}
 }
 
 func (s *lexState) clone() *lexState {
-	n := &lexState{ne: s.ne, atEOF: s.atEOF, B: s.B, adv: s.adv, since: map[types.Object]bool{}, snaps: map[types.Object]snapState{}, byteVar: map[types.Object]bool{}, runeVar: map[types.Object]bool{}, valueOf: map[types.Object]types.Object{}}
+	n := &lexState{ne: s.ne, atEOF: s.atEOF, B: s.B, adv: s.adv, since: map[types.Object]bool{}, snaps: map[types.Object]snapState{}, byteVar: map[types.Object]bool{}, runeVar: map[types.Object]bool{}, valueOf: map[types.Object]types.Object{},
+		sig: s.sig, nl: s.nl, nlUnknown: s.nlUnknown, sawNL: s.sawNL, atStartSet: s.atStartSet, posSnap: map[types.Object]bool{}, sigAt: map[types.Object]bool{}, lead: map[types.Object]bool{},
+		notAfter: map[types.Object]map[types.Object]bool{}, epoch: append([]types.Object(nil), s.epoch...)}
+	for k, v := range s.notAfter {
+		m := map[types.Object]bool{}
+		for q := range v {
+			m[q] = true
+		}
+		n.notAfter[k] = m
+	}
+	for k, v := range s.posSnap {
+		n.posSnap[k] = v
+	}
+	for k, v := range s.sigAt {
+		n.sigAt[k] = v
+	}
+	for k, v := range s.lead {
+		n.lead[k] = v
+	}
 	for k, v := range s.since {
 		n.since[k] = v
 	}
@@ -123,7 +166,7 @@ func (s *lexState) key() string {
 		}
 	}
 	sort.Strings(ks)
-	return fmt.Sprintf("%v|%v|%v|%s", s.adv, s.ne, s.atEOF, strings.Join(ks, ","))
+	return fmt.Sprintf("%v|%v|%v|%s|%v|%d|%v|%v|%v", s.adv, s.ne, s.atEOF, strings.Join(ks, ","), s.sig, s.nl, s.nlUnknown, s.sawNL, s.atStartSet)
 }
 
 func joinStates(a, b *lexState) *lexState {
@@ -139,6 +182,33 @@ func joinStates(a, b *lexState) *lexState {
 	for k := range n.since {
 		n.since[k] = a.since[k] && b.since[k]
 	}
+	for k := range n.posSnap {
+		if !b.posSnap[k] {
+			delete(n.posSnap, k)
+		}
+	}
+	for k, v := range b.sigAt {
+		n.sigAt[k] = n.sigAt[k] || v
+	}
+	for k, v := range b.lead {
+		n.lead[k] = n.lead[k] || v
+	}
+	for k, v := range n.notAfter {
+		for q := range v {
+			if !b.notAfter[k][q] {
+				delete(v, q)
+			}
+		}
+	}
+	var ep []types.Object
+	for _, q := range n.epoch {
+		for _, r := range b.epoch {
+			if q == r {
+				ep = append(ep, q)
+			}
+		}
+	}
+	n.epoch = ep
 	for k := range n.byteVar {
 		if !b.byteVar[k] {
 			delete(n.byteVar, k)
@@ -158,7 +228,7 @@ func joinStates(a, b *lexState) *lexState {
 		if bv, ok := b.snaps[k]; !ok || bv != v {
 			// keep the weaker snapshot
 			if ok {
-				n.snaps[k] = snapState{ne: v.ne && bv.ne, B: v.B.or(bv.B), adv: v.adv && bv.adv}
+				n.snaps[k] = snapState{ne: v.ne && bv.ne, B: v.B.or(bv.B), adv: v.adv && bv.adv, sig: v.sig || bv.sig, sawNL: v.sawNL || bv.sawNL, nlUnknown: v.nlUnknown || bv.nlUnknown || v.nl != bv.nl, nl: v.nl}
 			} else {
 				delete(n.snaps, k)
 			}
@@ -224,6 +294,14 @@ type lexInterp struct {
 	newlineFn string
 	reported  map[string]bool
 	depthErr  bool
+	// roles (never names): fields of the lexer and its primitive methods
+	fld         map[string]string // role (input, pos, line, column, atStart) -> field name
+	peekByte    map[string]bool   // pure parameterless methods returning the current byte
+	peekRune    map[string]bool   // ... the current rune
+	positionFns map[string]bool   // ... a Position built from the lexer's counters
+	only        map[string]bool   // rules whose obligations are recorded (nil = all)
+	dropKinds   map[string]bool   // token kinds whose value starts after consumed input (leading delimiter)
+	nTok        int
 }
 
 type lexFrame struct {
@@ -239,8 +317,39 @@ type lexFlow struct {
 }
 
 func ruleLexer(c *Ctx) {
+	li := runLexer(c, nil)
+	if li == nil {
+		return
+	}
+	c.census("L-PROGRESS", "token returns interpreted (over all calling contexts)", li.nReturns, 20)
+	c.census("L-NEWLINE", "position-advancing sites interpreted (over all calling contexts)", li.nAdvances, 20)
+	c.census("L-POS", "token constructions interpreted (over all calling contexts)", li.nTok, 20)
+}
+
+// ruleLexPos: the interpreter's L-POS obligations only (for properties that need token positions but not
+// the progress argument).
+func ruleLexPos(c *Ctx) {
+	li := runLexer(c, map[string]bool{"L-POS": true})
+	if li == nil {
+		return
+	}
+	c.census("L-POS", "token constructions interpreted (over all calling contexts)", li.nTok, 20)
+}
+
+// delimiterDroppingKinds: token kinds whose value starts after input consumed since the token's start
+// position was captured (a leading delimiter that is not part of Value) - a by-product of the interpretation.
+func delimiterDroppingKinds(c *Ctx) map[string]bool {
+	li := runLexer(c, map[string]bool{})
+	if li == nil {
+		return map[string]bool{}
+	}
+	return li.dropKinds
+}
+
+// runLexer interprets the lexer; only obligations of the rules in `only` are recorded (nil = all).
+func runLexer(c *Ctx, only map[string]bool) *lexInterp {
 	pk := c.P.ByRel["internal/parser"]
-	li := &lexInterp{c: c, pk: pk, info: pk.TypesInfo, methods: map[string]*ast.FuncDecl{}, funcs: map[types.Object]*ast.FuncDecl{}, reported: map[string]bool{}}
+	li := &lexInterp{c: c, pk: pk, info: pk.TypesInfo, methods: map[string]*ast.FuncDecl{}, funcs: map[types.Object]*ast.FuncDecl{}, reported: map[string]bool{}, only: only}
 	// the lexer type: the type with a method Next() returning the token type
 	var nextFd *ast.FuncDecl
 	for _, f := range pk.Syntax {
@@ -257,7 +366,7 @@ func ruleLexer(c *Ctx) {
 	}
 	if nextFd == nil {
 		c.undecided("L-PROGRESS", "parser", "lexer entry point", token.NoPos, "no method Next() Token found in package parser")
-		return
+		return nil
 	}
 	recvName := recvTypeName(nextFd)
 	for _, f := range pk.Syntax {
@@ -267,54 +376,125 @@ func ruleLexer(c *Ctx) {
 			}
 		}
 	}
-	// the newline scanner: the method that increments the line counter
-	for name, fd := range li.methods {
-		ast.Inspect(fd.Body, func(x ast.Node) bool {
-			if inc, ok := x.(*ast.IncDecStmt); ok {
-				if se, ok := ast.Unparen(inc.X).(*ast.SelectorExpr); ok && se.Sel.Name == "line" {
-					li.newlineFn = name
-				}
-			}
-			return true
-		})
+	li.findRoles(recvName)
+	for _, role := range []string{"input", "pos", "line", "column", "atStart"} {
+		if li.fld[role] == "" {
+			c.undecided("L-PROGRESS", "parser."+recvName, "lexer field with role "+role, token.NoPos, "the field of the lexer that plays the role `"+role+"` could not be identified from its type and use")
+			return nil
+		}
 	}
 	fr := &lexFrame{fd: nextFd}
 	li.stack = []string{"Next"}
 	li.block(nextFd.Body.List, []*lexState{newLexState()}, fr)
-	c.census("L-PROGRESS", "token returns interpreted (over all calling contexts)", li.nReturns, 20)
-	c.census("L-NEWLINE", "position-advancing sites interpreted (over all calling contexts)", li.nAdvances, 20)
-	if li.newlineFn == "" {
-		c.undecided("L-NEWLINE", "parser."+recvName, "newline scanner", token.NoPos, "no lexer method increments the line counter")
+	return li
+}
+
+// findRoles identifies the lexer's fields and primitive methods by type and use.
+func (li *lexInterp) findRoles(recvName string) {
+	li.fld = map[string]string{}
+	li.peekByte, li.peekRune, li.positionFns = map[string]bool{}, map[string]bool{}, map[string]bool{}
+	li.dropKinds = map[string]bool{}
+	obj := li.pk.Types.Scope().Lookup(recvName)
+	if obj == nil {
+		return
 	}
-	// line-start flag and line counter are written only by the constructor, the newline scanner and the line-start dispatcher
-	for name, fd := range li.methods {
-		ast.Inspect(fd.Body, func(x ast.Node) bool {
-			var lhs []ast.Expr
-			switch s := x.(type) {
-			case *ast.AssignStmt:
-				lhs = s.Lhs
-			case *ast.IncDecStmt:
-				lhs = []ast.Expr{s.X}
+	st, ok := obj.Type().Underlying().(*types.Struct)
+	if !ok {
+		return
+	}
+	isField := func(name string) bool {
+		for i := 0; i < st.NumFields(); i++ {
+			if st.Field(i).Name() == name {
+				return true
 			}
-			for _, l := range lhs {
-				se, ok := ast.Unparen(l).(*ast.SelectorExpr)
-				if !ok {
-					continue
-				}
-				switch se.Sel.Name {
-				case "line":
-					c.check(name == li.newlineFn, "L-NEWLINE", "parser."+recvName+"."+name, "line counter written by the newline scanner only", l.Pos(), "line++ in the newline scanner", "the line counter is modified outside the newline scanner")
-				case "atStart":
-					val := ""
-					if as, ok := x.(*ast.AssignStmt); ok && len(as.Rhs) == 1 {
-						val = identOf(as.Rhs[0]).Name
+		}
+		return false
+	}
+	var boolFields []string
+	for i := 0; i < st.NumFields(); i++ {
+		f := st.Field(i)
+		if b, ok := f.Type().Underlying().(*types.Basic); ok {
+			switch {
+			case b.Kind() == types.String:
+				li.fld["input"] = f.Name()
+			case b.Kind() == types.Bool:
+				boolFields = append(boolFields, f.Name())
+			}
+		}
+	}
+	if len(boolFields) == 1 {
+		li.fld["atStart"] = boolFields[0]
+	}
+	selOnRecv := func(e ast.Expr) (string, bool) {
+		se, ok := ast.Unparen(e).(*ast.SelectorExpr)
+		if !ok || !isField(se.Sel.Name) {
+			return "", false
+		}
+		t := li.info.TypeOf(se.X)
+		if t == nil {
+			return "", false
+		}
+		if pt, ok := t.(*types.Pointer); ok {
+			t = pt.Elem()
+		}
+		if n, ok := t.(*types.Named); ok && n.Obj() == obj {
+			return se.Sel.Name, true
+		}
+		return "", false
+	}
+	var names []string
+	for n := range li.methods {
+		names = append(names, n)
+	}
+	sort.Strings(names)
+	for _, n := range names {
+		fd := li.methods[n]
+		ast.Inspect(fd.Body, func(x ast.Node) bool {
+			switch e := x.(type) {
+			case *ast.IndexExpr:
+				// input[pos]
+				if in, ok := selOnRecv(e.X); ok && in == li.fld["input"] {
+					if p, ok := selOnRecv(e.Index); ok {
+						li.fld["pos"] = p
 					}
-					okW := (val == "true" && name == li.newlineFn) || val == "false"
-					c.check(okW, "L-NEWLINE", "parser."+recvName+"."+name, "line-start flag set by the newline scanner only", l.Pos(), "atStart = "+val, "the line-start flag is set to true outside the newline scanner: the lexer's state at a line start would depend on earlier lines")
+				}
+			case *ast.CompositeLit:
+				if typeHasSuffix(li.info.TypeOf(e), "parser.Position") {
+					for _, el := range e.Elts {
+						if kv, ok := el.(*ast.KeyValueExpr); ok {
+							if f, ok := selOnRecv(kv.Value); ok {
+								switch identOf(kv.Key).Name {
+								case "Line":
+									li.fld["line"] = f
+								case "Column":
+									li.fld["column"] = f
+								}
+							}
+						}
+					}
 				}
 			}
 			return true
 		})
+	}
+	// primitive methods (need the field roles for purity)
+	for _, n := range names {
+		fd := li.methods[n]
+		if fd.Type.Params != nil && len(fd.Type.Params.List) > 0 || fd.Type.Results == nil || len(fd.Type.Results.List) != 1 {
+			continue
+		}
+		rt := li.info.TypeOf(fd.Type.Results.List[0].Type)
+		if rt == nil || !li.isPure(fd, 0) {
+			continue
+		}
+		switch ts := types.TypeString(rt, nil); {
+		case ts == "byte" || ts == "uint8":
+			li.peekByte[n] = true
+		case ts == "rune" || ts == "int32":
+			li.peekRune[n] = true
+		case strings.HasSuffix(ts, "parser.Position"):
+			li.positionFns[n] = true
+		}
 	}
 }
 
@@ -326,13 +506,31 @@ func (li *lexInterp) undecided(fr *lexFrame, n ast.Node, what string) {
 		return
 	}
 	li.reported[k] = true
-	li.c.undecided("L-PROGRESS", li.fnName(fr), "construct outside the interpreter's vocabulary: "+what, n.Pos(), "the lexer interpreter does not understand `"+exprStr(li.c.P.Fset, n)+"` ("+what+"); progress of the tokenizer cannot be established")
+	rule := "L-PROGRESS"
+	if li.only != nil && !li.only[rule] {
+		rule = ""
+		for r := range li.only {
+			if rule == "" || r < rule {
+				rule = r
+			}
+		}
+		if rule == "" {
+			return // facts only (token kinds): nothing is decided from this run
+		}
+	}
+	li.c.undecided(rule, li.fnName(fr), "construct outside the interpreter's vocabulary: "+what, n.Pos(), "the lexer interpreter does not understand `"+exprStr(li.c.P.Fset, n)+"` ("+what+"); the tokenizer's behaviour cannot be established")
 }
 
 // isLexerField: e is `<lexer>.name`
 func (li *lexInterp) isLexerField(e ast.Expr, name string) bool {
 	se, ok := ast.Unparen(e).(*ast.SelectorExpr)
-	if !ok || se.Sel.Name != name {
+	if !ok {
+		return false
+	}
+	if actual, known := li.fld[name]; known {
+		name = actual
+	}
+	if se.Sel.Name != name {
 		return false
 	}
 	t := li.info.TypeOf(se.X)
@@ -366,7 +564,7 @@ func (li *lexInterp) isCurrentByteExpr(e ast.Expr, s *lexState) bool {
 	e = ast.Unparen(e)
 	switch x := e.(type) {
 	case *ast.CallExpr:
-		if m, ok := li.lexerMethodCall(x); ok && m == "peek" && len(x.Args) == 0 {
+		if m, ok := li.lexerMethodCall(x); ok && li.peekByte[m] && len(x.Args) == 0 {
 			return true
 		}
 		// byte(x) / rune(x) conversions
@@ -387,7 +585,7 @@ func (li *lexInterp) isCurrentRuneExpr(e ast.Expr, s *lexState) bool {
 	e = ast.Unparen(e)
 	switch x := e.(type) {
 	case *ast.CallExpr:
-		if m, ok := li.lexerMethodCall(x); ok && m == "peekRune" && len(x.Args) == 0 {
+		if m, ok := li.lexerMethodCall(x); ok && li.peekRune[m] && len(x.Args) == 0 {
 			return true
 		}
 	case *ast.Ident:
@@ -788,17 +986,17 @@ func (li *lexInterp) compare(x *ast.BinaryExpr, in []*lexState, fr *lexFrame) (t
 					st, sf := s.clone(), s.clone()
 					switch x.Op {
 					case token.GTR:
-						st.since[o] = true
+						st.markSince(o)
 						if s.since[o] {
 							sf = nil
 						}
 					case token.NEQ:
-						st.since[o] = true
+						st.markSince(o)
 						if s.since[o] {
 							sf = nil
 						}
 					case token.EQL, token.LEQ:
-						sf.since[o] = true
+						sf.markSince(o)
 						if s.since[o] {
 							st = nil
 						}
@@ -826,9 +1024,9 @@ func (li *lexInterp) compare(x *ast.BinaryExpr, in []*lexState, fr *lexFrame) (t
 						if snap, ok := s.valueOf[o]; ok {
 							switch x.Op {
 							case token.GTR, token.NEQ:
-								st.since[snap] = true
+								st.markSince(snap)
 							case token.EQL:
-								sf.since[snap] = true
+								sf.markSince(snap)
 							}
 						}
 						t, f = append(t, st), append(f, sf)
@@ -969,7 +1167,7 @@ func (li *lexInterp) condCall(call *ast.CallExpr, in []*lexState, fr *lexFrame) 
 					for _, s := range in {
 						st := s.clone()
 						if snap, ok := s.valueOf[vo]; ok {
-							st.since[snap] = true
+							st.markSince(snap)
 						}
 						t, f = append(t, st), append(f, s.clone())
 					}
@@ -1253,14 +1451,10 @@ func (li *lexInterp) touchesStmt(n ast.Node) bool {
 // effectiveAdvance models pos += size (size >= 1 when pos < len(input)).
 func (li *lexInterp) effectiveAdvance(n ast.Node, in []*lexState, fr *lexFrame) []*lexState {
 	var out []*lexState
-	top := li.stack[len(li.stack)-1]
-	inNewline := false
-	for _, f := range li.stack {
-		if f == li.newlineFn {
-			inNewline = true
-		}
-	}
-	_ = top
+	nlOnly := single('\n')
+	var blanks bset
+	blanks.add(' ')
+	blanks.add('\t')
 	for _, s := range in {
 		li.nAdvances++
 		n2 := s.clone()
@@ -1269,18 +1463,28 @@ func (li *lexInterp) effectiveAdvance(n ast.Node, in []*lexState, fr *lexFrame) 
 			out = append(out, n2)
 			continue
 		}
-		if !inNewline {
-			site := fmt.Sprintf("advance #%d in %s (context %s)", ordinalIn(fr.fd, n), li.fnName(fr), strings.Join(li.stack, ">"))
-			if s.ne && !s.B.has('\n') {
-				li.okOnce("L-NEWLINE", fr, site, n.Pos(), "current byte ∈ "+s.B.String()+": no line break is consumed outside the newline scanner")
-			} else {
-				why := "the current byte may be a line break (possible bytes: " + s.B.String() + ")"
-				if !s.ne {
-					why = "nothing is known about the current byte"
-				}
-				li.findOnce("L-NEWLINE", fr, site, n.Pos(), "a scanner other than the newline scanner can consume '\\n': "+why+"; the token then spans a line break, line numbers drift and the lexer's state at the next line start depends on this line")
+		site := fmt.Sprintf("advance #%d in %s (context %s)", ordinalIn(fr.fd, n), li.fnName(fr), strings.Join(li.stack, ">"))
+		switch {
+		case s.ne && !s.B.has('\n'):
+			li.okOnce("L-NEWLINE", fr, site, n.Pos(), "current byte ∈ "+s.B.String()+": no line break is consumed here")
+		case s.ne && s.B == nlOnly:
+			// a line break is consumed: it must be matched by one increment of the line counter before the
+			// token is returned (checked at the return)
+			n2.nl++
+			n2.sawNL = true
+			li.okOnce("L-NEWLINE", fr, site, n.Pos(), "the byte consumed here is a line break; the matching increment of the line counter is checked at the token's return")
+		default:
+			why := "the current byte may be a line break (possible bytes: " + s.B.String() + ")"
+			if !s.ne {
+				why = "nothing is known about the current byte"
 			}
+			n2.nlUnknown = true
+			li.findOnce("L-NEWLINE", fr, site, n.Pos(), "a scanner can consume '\\n' among other bytes: "+why+"; the token then spans a line break, line numbers drift and the lexer's state at the next line start depends on this line")
 		}
+		if !s.ne || !s.B.and(blanks.not()).empty() {
+			n2.sig = true
+		}
+		n2.epoch = nil
 		if s.ne {
 			n2.adv = true
 			for k := range n2.since {
@@ -1300,6 +1504,9 @@ func (li *lexInterp) effectiveAdvance(n ast.Node, in []*lexState, fr *lexFrame) 
 }
 
 func (li *lexInterp) okOnce(rule string, fr *lexFrame, desc string, pos token.Pos, msg string) {
+	if li.only != nil && !li.only[rule] {
+		return
+	}
 	k := rule + "|" + desc
 	if li.reported[k] {
 		return
@@ -1309,6 +1516,9 @@ func (li *lexInterp) okOnce(rule string, fr *lexFrame, desc string, pos token.Po
 }
 
 func (li *lexInterp) findOnce(rule string, fr *lexFrame, desc string, pos token.Pos, msg string) {
+	if li.only != nil && !li.only[rule] {
+		return
+	}
 	k := rule + "|F|" + desc
 	if li.reported[k] {
 		return
@@ -1363,15 +1573,55 @@ func (li *lexInterp) assign(s *ast.AssignStmt, in []*lexState, fr *lexFrame) []*
 					delete(st.valueOf, o)
 					delete(st.snaps, o)
 					delete(st.since, o)
+					delete(st.posSnap, o)
+					delete(st.sigAt, o)
+					delete(st.lead, o)
 				}
 			}
 		}
+		isPosCall := false
+		if call, ok := rhs.(*ast.CallExpr); ok && len(call.Args) == 0 {
+			if m, ok := li.lexerMethodCall(call); ok && li.positionFns[m] {
+				isPosCall = true
+			}
+		}
 		switch {
-		case li.isLexerField(rhs, "pos") && len(s.Lhs) == 1:
+		case (li.isLexerField(rhs, "pos") || isPosCall) && len(s.Lhs) == 1:
 			if o := obj(0); o != nil {
 				for _, st := range out {
-					st.snaps[o] = snapState{ne: st.ne, B: st.B, adv: st.adv}
+					// input consumed between an earlier Position snapshot and this one: whatever is sliced from
+					// here on does not include the beginning of the lexeme (a leading delimiter)
+					lead := false
+					for p := range st.posSnap {
+						if st.since[p] {
+							lead = true
+						}
+					}
+					na := map[types.Object]bool{}
+					for q := range st.snaps {
+						if q != o {
+							na[q] = true
+						}
+					}
+					// snapshots taken since the last advance denote the same position: the relation is mutual
+					for _, q := range st.epoch {
+						if q != o {
+							if st.notAfter[q] == nil {
+								st.notAfter[q] = map[types.Object]bool{}
+							}
+							st.notAfter[q][o] = true
+						}
+					}
+					st.notAfter[o] = na
+					st.epoch = append(st.epoch, o)
+					st.snaps[o] = snapState{ne: st.ne, B: st.B, adv: st.adv, sig: st.sig, nl: st.nl, sawNL: st.sawNL, nlUnknown: st.nlUnknown}
 					st.since[o] = false
+					st.sigAt[o] = st.sig
+					st.lead[o] = lead
+					delete(st.posSnap, o)
+					if isPosCall {
+						st.posSnap[o] = true
+					}
 				}
 			}
 		case len(s.Lhs) == 1 && (func() bool { return li.isCurrentByteExpr(rhs, in0(in)) })():
@@ -1403,9 +1653,17 @@ func (li *lexInterp) assign(s *ast.AssignStmt, in []*lexState, fr *lexFrame) []*
 			var sl *ast.SliceExpr
 			if x, ok := rhs.(*ast.SliceExpr); ok {
 				sl = x
+			} else if call, ok := rhs.(*ast.CallExpr); ok && len(call.Args) >= 1 && strings.HasPrefix(qualName(calleeOf(li.info, call)), "strings.Trim") {
+				if x, ok := ast.Unparen(call.Args[0]).(*ast.SliceExpr); ok {
+					sl = x
+				}
 			}
 			if sl != nil && li.isLexerField(sl.X, "input") && sl.Low != nil && li.isLexerField(sl.High, "pos") && len(s.Lhs) == 1 {
-				if id, ok := ast.Unparen(sl.Low).(*ast.Ident); ok {
+				low := ast.Unparen(sl.Low)
+				if se, ok := low.(*ast.SelectorExpr); ok && se.Sel.Name == "Offset" {
+					low = ast.Unparen(se.X) // start.Offset of a Position snapshot
+				}
+				if id, ok := low.(*ast.Ident); ok {
 					if so := li.info.Uses[id]; so != nil {
 						if o := obj(0); o != nil {
 							for _, st := range out {
@@ -1460,6 +1718,8 @@ func (li *lexInterp) assignLexerField(lhs ast.Expr, rhs ast.Expr, tok token.Toke
 						}
 						n2 := s.clone()
 						n2.ne, n2.B, n2.adv, n2.atEOF = snap.ne, snap.B, snap.adv, false
+						n2.sig, n2.nl, n2.sawNL, n2.nlUnknown = snap.sig, snap.nl, snap.sawNL, snap.nlUnknown
+						n2.epoch = nil
 						// facts established after the snapshot are gone
 						n2.since[o] = false
 						for k := range n2.snaps {
@@ -1483,8 +1743,37 @@ func (li *lexInterp) assignLexerField(lhs ast.Expr, rhs ast.Expr, tok token.Toke
 		}
 		li.undecided(fr, n, "write to the lexer position")
 		return cloneAll(in)
+	case li.isLexerField(lhs, "line"):
+		out := cloneAll(in)
+		for _, st := range out {
+			switch tok {
+			case token.INC:
+				st.nl--
+			case token.ADD_ASSIGN:
+				if k, ok := constInt(li.info, rhs); ok && k == 1 {
+					st.nl--
+				} else {
+					st.nlUnknown = true
+				}
+			default:
+				st.nlUnknown = true
+			}
+		}
+		return out
+	case li.isLexerField(lhs, "atStart"):
+		out := cloneAll(in)
+		if rhs != nil && identOf(rhs).Name == "true" {
+			for _, st := range out {
+				st.atStartSet = true
+			}
+		} else if rhs == nil || identOf(rhs).Name != "false" {
+			for _, st := range out {
+				st.atStartSet = true // unknown value: may be true
+			}
+		}
+		return out
 	default:
-		// column / line / atStart: no effect on progress; L-NEWLINE checks their writers separately
+		// column: no effect on progress
 		return cloneAll(in)
 	}
 }
@@ -1545,42 +1834,180 @@ func (li *lexInterp) ret(s *ast.ReturnStmt, in []*lexState, fr *lexFrame) {
 		return
 	}
 	r := ast.Unparen(s.Results[0])
-	switch x := r.(type) {
-	case *ast.CallExpr:
-		m, ok := li.lexerMethodCall(x)
-		if !ok {
-			li.undecided(fr, s, "token returned from an unknown call")
-			return
-		}
-		fd := li.methods[m]
-		// makeToken-like constructor: builds a token at the current position without consuming input
-		if li.isPure(fd, 0) {
-			kind := ""
-			if len(x.Args) > 0 {
-				kind = identOf(x.Args[0]).Name
-			}
-			li.checkReturn(s, in, fr, kind)
-			return
-		}
-		// tail call of another scanner: its returns are checked in its own body, in this context
-		li.inline(fd, in, fr, x)
-	case *ast.CompositeLit:
-		kind := ""
-		for _, el := range x.Elts {
-			if kv, ok := el.(*ast.KeyValueExpr); ok && identOf(kv.Key).Name == "Type" {
-				kind = identOf(kv.Value).Name
-			}
-		}
-		li.checkReturn(s, in, fr, kind)
-	default:
-		li.undecided(fr, s, "token return of an unknown form")
+	if tp, ok := li.tokenParts(r, 0); ok {
+		li.checkReturn(s, in, fr, tp)
+		return
 	}
+	if x, ok := r.(*ast.CallExpr); ok {
+		if m, ok := li.lexerMethodCall(x); ok {
+			// tail call of another scanner: its returns are checked in its own body, in this context
+			li.inline(li.methods[m], in, fr, x)
+			return
+		}
+		li.undecided(fr, s, "token returned from an unknown call")
+		return
+	}
+	li.undecided(fr, s, "token return of an unknown form")
 }
 
-func (li *lexInterp) checkReturn(s *ast.ReturnStmt, in []*lexState, fr *lexFrame, kind string) {
+// tokenPartsT: how a returned token is put together.
+type tokenPartsT struct {
+	kind   string   // name of the TokenType constant ("" = not a constant)
+	pos    ast.Expr // expression stored in Pos (nil: unknown)
+	posNow bool     // Pos is the lexer's position at the moment of construction
+	value  ast.Expr
+}
+
+// tokenParts understands a Token composite literal and calls of pure constructors (methods or functions of
+// the package that return such a literal built from their parameters).
+func (li *lexInterp) tokenParts(r ast.Expr, depth int) (tokenPartsT, bool) {
+	var tp tokenPartsT
+	switch x := ast.Unparen(r).(type) {
+	case *ast.CompositeLit:
+		if !typeHasSuffix(li.info.TypeOf(x), "parser.Token") {
+			return tp, false
+		}
+		for _, el := range x.Elts {
+			kv, ok := el.(*ast.KeyValueExpr)
+			if !ok {
+				return tp, false
+			}
+			switch identOf(kv.Key).Name {
+			case "Type":
+				if k, ok := li.info.Uses[identOf(kv.Value)].(*types.Const); ok {
+					tp.kind = k.Name()
+				}
+			case "Pos":
+				tp.pos = kv.Value
+				if call, ok := ast.Unparen(kv.Value).(*ast.CallExpr); ok {
+					if m, ok := li.lexerMethodCall(call); ok && li.positionFns[m] {
+						tp.posNow = true
+					}
+				}
+			case "Value":
+				tp.value = kv.Value
+			}
+		}
+		return tp, true
+	case *ast.CallExpr:
+		if depth > 2 {
+			return tp, false
+		}
+		fn, ok := calleeOf(li.info, x).(*types.Func)
+		if !ok {
+			return tp, false
+		}
+		fd := li.funcs[fn]
+		if fd == nil || fd.Body == nil || !li.isPure(fd, 0) || fd.Type.Results == nil || len(fd.Type.Results.List) != 1 ||
+			!typeHasSuffix(li.info.TypeOf(fd.Type.Results.List[0].Type), "parser.Token") {
+			return tp, false
+		}
+		// the constructor's single return
+		var ret *ast.ReturnStmt
+		n := 0
+		ast.Inspect(fd.Body, func(y ast.Node) bool {
+			if rs, ok := y.(*ast.ReturnStmt); ok {
+				ret = rs
+				n++
+			}
+			return true
+		})
+		if n != 1 || len(ret.Results) != 1 {
+			return tp, false
+		}
+		inner, ok := li.tokenParts(ret.Results[0], depth+1)
+		if !ok {
+			return tp, false
+		}
+		// bind the constructor's parameters to the arguments of this call
+		var params []types.Object
+		if fd.Type.Params != nil {
+			for _, fl := range fd.Type.Params.List {
+				for _, nm := range fl.Names {
+					params = append(params, li.info.Defs[nm])
+				}
+			}
+		}
+		bind := func(e ast.Expr) (ast.Expr, bool) {
+			if e == nil {
+				return nil, false
+			}
+			o := li.info.Uses[identOf(e)]
+			for i, q := range params {
+				if o != nil && o == q && i < len(x.Args) {
+					return x.Args[i], true
+				}
+			}
+			return nil, false
+		}
+		tp = inner
+		if inner.kind == "" {
+			// Type: <param>
+			for _, el := range ast.Unparen(ret.Results[0]).(*ast.CompositeLit).Elts {
+				if kv, ok := el.(*ast.KeyValueExpr); ok && identOf(kv.Key).Name == "Type" {
+					if a, ok := bind(kv.Value); ok {
+						if k, ok := li.info.Uses[identOf(a)].(*types.Const); ok {
+							tp.kind = k.Name()
+						}
+					}
+				}
+			}
+		}
+		if a, ok := bind(inner.pos); ok {
+			tp.pos, tp.posNow = a, false
+		} else if !inner.posNow {
+			// a local of the constructor: the position when the constructor runs
+			tp.pos, tp.posNow = nil, li.localFromPosition(fd, inner.pos)
+		}
+		if a, ok := bind(inner.value); ok {
+			tp.value = a
+		} else {
+			tp.value = nil
+		}
+		return tp, true
+	}
+	return tp, false
+}
+
+// localFromPosition: e is a local of fd defined once as a call of a position method.
+func (li *lexInterp) localFromPosition(fd *ast.FuncDecl, e ast.Expr) bool {
+	o := li.info.Uses[identOf(e)]
+	if o == nil {
+		return false
+	}
+	found := false
+	ast.Inspect(fd.Body, func(y ast.Node) bool {
+		if as, ok := y.(*ast.AssignStmt); ok && len(as.Lhs) == 1 && len(as.Rhs) == 1 && li.info.Defs[identOf(as.Lhs[0])] == o {
+			if call, ok := ast.Unparen(as.Rhs[0]).(*ast.CallExpr); ok {
+				if m, ok := li.lexerMethodCall(call); ok && li.positionFns[m] {
+					found = true
+				}
+			}
+		}
+		return true
+	})
+	return found
+}
+
+func (li *lexInterp) checkReturn(s *ast.ReturnStmt, in []*lexState, fr *lexFrame, tp tokenPartsT) {
+	kind := tp.kind
 	for _, st := range in {
 		li.nReturns++
+		li.nTok++
 		desc := fmt.Sprintf("return #%d of %s in %s (context %s)", ordinalIn(fr.fd, s), kind, li.fnName(fr), strings.Join(li.stack, ">"))
+		// ---- L-NEWLINE: line breaks consumed = increments of the line counter; line-start flag only after a line break
+		switch {
+		case st.nlUnknown:
+			// reported at the advance / write itself
+		case st.nl != 0:
+			li.findOnce("L-NEWLINE", fr, "line accounting at "+desc, s.Pos(), fmt.Sprintf("while this token was scanned the number of line breaks consumed and the number of increments of the line counter differ by %d: line numbers of everything that follows are off", st.nl))
+		case st.atStartSet && !st.sawNL:
+			li.findOnce("L-NEWLINE", fr, "line accounting at "+desc, s.Pos(), "the line-start flag is set although no line break was consumed for this token: the lexer's state at a line start would depend on earlier lines")
+		default:
+			li.okOnce("L-NEWLINE", fr, "line accounting at "+desc, s.Pos(), "line breaks consumed and line-counter increments match; the line-start flag is only set together with a consumed line break")
+		}
+		// ---- L-POS: where the token starts
+		li.checkPos(s, st, fr, tp, desc)
 		if kind == "TokenEOF" {
 			if st.atEOF {
 				li.okOnce("L-PROGRESS", fr, desc, s.Pos(), "the end-of-input token is returned only when pos >= len(input)")
@@ -1597,6 +2024,57 @@ func (li *lexInterp) checkReturn(s *ast.ReturnStmt, in []*lexState, fr *lexFrame
 				b = st.B.String()
 			}
 			li.findOnce("L-PROGRESS", fr, desc, s.Pos(), "a non-EOF token can be returned without consuming any input (possible current bytes: "+b+"): Next() would return the same token forever and every caller that loops until EOF hangs")
+		}
+	}
+}
+
+// checkPos (L-POS): the token's Pos is a position captured before any significant byte of the scan was
+// consumed, and - except for the end-of-input token - input was consumed after it.
+func (li *lexInterp) checkPos(s *ast.ReturnStmt, st *lexState, fr *lexFrame, tp tokenPartsT, desc string) {
+	pdesc := "token start at " + desc
+	if tp.posNow {
+		// Pos = End = current position: an empty token
+		if tp.kind == "TokenEOF" {
+			li.okOnce("L-POS", fr, pdesc, s.Pos(), "zero-width token at the current position: the end-of-input token")
+		} else {
+			li.findOnce("L-POS", fr, pdesc, s.Pos(), "a non-EOF token is built with Pos = the position at construction time: it is empty and, if built after consuming its character, sits behind its lexeme")
+		}
+		return
+	}
+	o := li.info.Uses[identOf(tp.pos)]
+	if tp.pos == nil || o == nil || !st.posSnap[o] {
+		li.findOnce("L-POS", fr, pdesc, s.Pos(), "a token is positioned after (part of) its lexeme: Pos is not a variable captured from the lexer's position")
+		return
+	}
+	switch {
+	case st.sigAt[o]:
+		li.findOnce("L-POS", fr, pdesc, s.Pos(), "a token is positioned after (part of) its lexeme: the start position is captured after the scanner has already consumed input other than blanks")
+	case tp.kind != "TokenEOF" && !st.since[o]:
+		li.findOnce("L-POS", fr, pdesc, s.Pos(), "no input is consumed between the capture of Pos and the construction of the token: the token is empty or positioned behind its lexeme")
+	default:
+		li.okOnce("L-POS", fr, pdesc, s.Pos(), "Pos is a position captured before the scanner consumed anything but blanks, and input was consumed after it")
+	}
+	// value sliced from a point after consumed input: the token kind drops a leading delimiter
+	if tp.value != nil && tp.kind != "" {
+		if vo := li.info.Uses[identOf(tp.value)]; vo != nil {
+			if so, ok := st.valueOf[vo]; ok && st.lead[so] {
+				li.dropKinds[tp.kind] = true
+			}
+		} else {
+			// Value: l.input[start:l.pos] (possibly trimmed) written in place
+			v := ast.Unparen(tp.value)
+			if call, ok := v.(*ast.CallExpr); ok && len(call.Args) >= 1 && strings.HasPrefix(qualName(calleeOf(li.info, call)), "strings.Trim") {
+				v = ast.Unparen(call.Args[0])
+			}
+			if sl, ok := v.(*ast.SliceExpr); ok && li.isLexerField(sl.X, "input") && sl.Low != nil {
+				low := ast.Unparen(sl.Low)
+				if se, ok := low.(*ast.SelectorExpr); ok && se.Sel.Name == "Offset" {
+					low = ast.Unparen(se.X)
+				}
+				if so := li.info.Uses[identOf(low)]; so != nil && st.lead[so] {
+					li.dropKinds[tp.kind] = true
+				}
+			}
 		}
 	}
 }
